@@ -264,10 +264,42 @@ class ExecGen:
         self.tags.add("long-pair-scenario")
         self.watch = [ibtp_id(f, t, 1), ibtp_id(f, t, 10)]
 
+    def scripted_reused_deadline(self):
+        """a deadline whose list was emptied is used again: request A gets deadline D and is answered (its list becomes empty, the
+        key stays), then request B of another pair gets the same deadline D and is not answered: B must time out at D"""
+        r = self.rng
+        (f1, t1), (f2, t2) = r.sample([("c1:s1", "c2:s1"), ("c2:s1", "c1:s1"), ("c1:s2", "c2:s3"), ("c4:s1", "c2:s1"), ("c2:s3", "c4:s1")], 2)
+        T = r.choice([5, 6, 7])
+
+        def blk(txs):
+            self.height += 1
+            self.ops.append("block " + " | ".join(txs))
+            self.observe()
+        i1 = self.next_req.get((f1, t1), 1)
+        i2 = self.next_req.get((f2, t2), 1)
+        hA = self.height + 1
+        blk([f"ibtp {ADMIN[f1.split(':')[0]]} {f1} {t1} {i1} req {T} - ok"])
+        blk([f"ibtp {ADMIN[t1.split(':')[0]]} {f1} {t1} {i1} {r.choice(['ok', 'ok', 'fail'])} 0 - ok"])
+        if r.random() < 0.4:
+            blk([])
+        hB = self.height + 1
+        blk([f"ibtp {ADMIN[f2.split(':')[0]]} {f2} {t2} {i2} req {hA + T - hB} - ok"])
+        self.next_req[(f1, t1)] = i1 + 1
+        self.next_rcpt[(f1, t1)] = i1 + 1
+        self.next_req[(f2, t2)] = i2 + 1
+        self.next_rcpt[(f2, t2)] = i2 + 1       # no receipt for B from the random traffic (it would use the next index)
+        self.watch = getattr(self, "watch", []) + [ibtp_id(f1, t1, i1), ibtp_id(f2, t2, i2)]
+        self.ids += [ibtp_id(f1, t1, i1), ibtp_id(f2, t2, i2)]
+        self.tags.add("reused-deadline-scenario")
+
     def history(self, nblocks):
-        if self.focus in ("single", "mixed") and self.rng.random() < 0.1:
+        k = self.rng.random()
+        if self.focus in ("single", "mixed") and k < 0.1:
             self.scripted_long_pair()
             nblocks = max(nblocks, 9)
+        elif self.focus in ("single", "mixed") and k < 0.22:
+            self.scripted_reused_deadline()
+            nblocks = max(nblocks, 8)
         for _ in range(nblocks):
             self.block()
             self.observe()
